@@ -242,7 +242,7 @@ func checkC05(P *Program, r *Result, tier string) {
 		fa := A.fa(fn)
 		n := fa.expand(fn.Params[1])
 		nSucc := 0
-		for _, rc := range retCases(fn) {
+		for _, rc := range retCasesErr(fn) {
 			// a way out that is not known to report an error is a success: every merged exit is split per incoming edge
 			if success, known := caseSuccess(rc); known && !success {
 				continue
@@ -280,7 +280,7 @@ func checkC05(P *Program, r *Result, tier string) {
 		roomFacts(fa, fn)
 		bs := fa.sliceDesc(fn.Params[1])
 		nSucc := 0
-		for _, rc := range retCases(fn) {
+		for _, rc := range retCasesErr(fn) {
 			// a way out that is not known to report an error is a success: every merged exit is split per incoming edge
 			if success, known := caseSuccess(rc); known && !success {
 				continue
